@@ -73,14 +73,15 @@ package asm
 //@   ensures a.generateText && len(a.lines) > EB_L0(a) ==> a.lines[len(a.lines)-1].address+uint32(BC(a, len(a.lines)-1)) == a.address
 //@   ensures a.generateText ==> all(k, int, EB_L0(a) <= k && k < len(a.lines) ==> a.lines[k].address == old(a.address)+uint32(16*(k-EB_L0(a))))
 //@   assigns a.n, a.code[:], a.address, a.lines, a.baseSet
-//@   loop 1 invariant builderlen(s) >= 3 && (builderlen(s) > 3) == ((rangeindex+1)&15 != 0) && blen == len(b)
+//@   loop 1 invariant 0 <= loopcount(1) && loopcount(1) <= len(b)
+//@   loop 1 invariant builderlen(s) >= 3 && (builderlen(s) > 3) == (loopcount(1)&15 != 0) && blen == len(b)
 //@   loop 1 invariant int(cl.asmLineType) == 7
-//@   loop 1 invariant cl.address == a.address+uint32((rangeindex+1)&^15)
-//@   loop 1 invariant cl.byteCount == len(b)-((rangeindex+1)&^15)
-//@   loop 1 invariant !a.baseSet && len(a.lines) == EB_L0(a)+(rangeindex+1)>>4
+//@   loop 1 invariant cl.address == a.address+uint32(loopcount(1)&^15)
+//@   loop 1 invariant cl.byteCount == len(b)-(loopcount(1)&^15)
+//@   loop 1 invariant !a.baseSet && len(a.lines) == EB_L0(a)+loopcount(1)>>4
 //@   loop 1 invariant all(k, int, 0 <= k && k < old(len(a.lines)) ==> a.lines[k] == old(a.lines[k]))
 //@   loop 1 invariant old(a.baseSet) ==> LT(a, old(len(a.lines))) == 6 && BC(a, old(len(a.lines))) == 0 && a.lines[old(len(a.lines))].address == a.address
-//@   loop 1 invariant all(k, int, EB_L0(a) <= k && k < len(a.lines) ==> LT(a, k) == 7 && BC(a, k) == 16 && 16*(k-EB_L0(a))+16 <= (rangeindex+1)&^15)
+//@   loop 1 invariant all(k, int, EB_L0(a) <= k && k < len(a.lines) ==> LT(a, k) == 7 && BC(a, k) == 16 && 16*(k-EB_L0(a))+16 <= loopcount(1)&^15)
 //@   loop 1 invariant all(k, int, EB_L0(a) <= k && k < len(a.lines) ==> (k == EB_L0(a) ==> a.lines[k].address == a.address) && (k > EB_L0(a) ==> a.lines[k].address == a.lines[k-1].address+16))
 //@   loop 1 invariant old(EB_PRE(a)) && len(b) <= 0x1000000 ==> all(k, int, EB_L0(a) <= k && k < len(a.lines) ==> int(a.lines[k].address-a.base) == a.n+16*(k-EB_L0(a)))
 //@   loop 1 invariant len(a.lines) > EB_L0(a) ==> a.lines[len(a.lines)-1].address+16 == cl.address
@@ -208,8 +209,8 @@ package asm
 //@   loop 2 invariant all(j, int, 0 <= j && j < len(refs) ==> refs[j] == old(a.danglingS8[label][j])) && len(refs) == old(len(a.danglingS8[label])) && has(a.labels, label) && addr == a.labels[label] && old(has(a.danglingS8, label))
 //@   loop 2 invariant all(l, string, all(i, int, visited(1, l) && l != label && 0 <= i && i < old(len(a.danglingS8[l])) ==> int(a.labels[l])-int(old(a.danglingS8[l][i])+1) <= 127 && int(a.labels[l])-int(old(a.danglingS8[l][i])+1) >= -128))
 //@   loop 2 invariant all(l, string, all(i, int, visited(1, l) && l != label && 0 <= i && i < old(len(a.danglingS8[l])) ==> a.code[old(a.danglingS8[l][i])-a.base] == uint8(a.labels[l]-(old(a.danglingS8[l][i])+1))))
-//@   loop 2 invariant all(i, int, 0 <= i && i <= rangeindex ==> int(a.labels[label])-int(old(a.danglingS8[label][i])+1) <= 127 && int(a.labels[label])-int(old(a.danglingS8[label][i])+1) >= -128)
-//@   loop 2 invariant all(i, int, 0 <= i && i <= rangeindex ==> a.code[old(a.danglingS8[label][i])-a.base] == uint8(a.labels[label]-(old(a.danglingS8[label][i])+1)))
+//@   loop 2 invariant all(i, int, 0 <= i && i < loopcount(2) ==> int(a.labels[label])-int(old(a.danglingS8[label][i])+1) <= 127 && int(a.labels[label])-int(old(a.danglingS8[label][i])+1) >= -128)
+//@   loop 2 invariant all(i, int, 0 <= i && i < loopcount(2) ==> a.code[old(a.danglingS8[label][i])-a.base] == uint8(a.labels[label]-(old(a.danglingS8[label][i])+1)))
 //@   loop 2 invariant all(o, int, 0 <= o && o < len(a.code) && a.code[o] != old(a.code[o]) ==> (any(l, string, any(i, int, old(has(a.danglingS8, l)) && 0 <= i && i < old(len(a.danglingS8[l])) && o == int(old(a.danglingS8[l][i])-a.base))) || any(l, string, any(i, int, old(has(a.danglingU16, l)) && 0 <= i && i < old(len(a.danglingU16[l])) && (o == int(old(a.danglingU16[l][i])-a.base) || o == int(old(a.danglingU16[l][i])-a.base)+1)))))
 //@   loop 2 modifies a.code[:]
 //@   loop 3 invariant all(l, string, all(i, int, old(has(a.danglingS8, l)) && 0 <= i && i < old(len(a.danglingS8[l])) ==> int(a.labels[l])-int(old(a.danglingS8[l][i])+1) <= 127 && int(a.labels[l])-int(old(a.danglingS8[l][i])+1) >= -128)) && all(l, string, all(i, int, old(has(a.danglingS8, l)) && 0 <= i && i < old(len(a.danglingS8[l])) ==> a.code[old(a.danglingS8[l][i])-a.base] == uint8(a.labels[l]-(old(a.danglingS8[l][i])+1)))) && all(l, string, old(has(a.danglingS8, l)) ==> has(a.labels, l))
@@ -222,7 +223,7 @@ package asm
 //@   loop 4 invariant all(l, string, all(i, int, old(has(a.danglingS8, l)) && 0 <= i && i < old(len(a.danglingS8[l])) ==> int(a.labels[l])-int(old(a.danglingS8[l][i])+1) <= 127 && int(a.labels[l])-int(old(a.danglingS8[l][i])+1) >= -128)) && all(l, string, all(i, int, old(has(a.danglingS8, l)) && 0 <= i && i < old(len(a.danglingS8[l])) ==> a.code[old(a.danglingS8[l][i])-a.base] == uint8(a.labels[l]-(old(a.danglingS8[l][i])+1)))) && all(l, string, old(has(a.danglingS8, l)) ==> has(a.labels, l))
 //@   loop 4 invariant all(j, int, 0 <= j && j < len(refs) ==> refs[j] == old(a.danglingU16[label][j])) && len(refs) == old(len(a.danglingU16[label])) && has(a.labels, label) && addr == a.labels[label] && old(has(a.danglingU16, label))
 //@   loop 4 invariant all(l, string, all(i, int, visited(3, l) && l != label && 0 <= i && i < old(len(a.danglingU16[l])) ==> a.code[old(a.danglingU16[l][i])-a.base] == uint8(a.labels[l]) && a.code[int(old(a.danglingU16[l][i])-a.base)+1] == uint8(a.labels[l]>>8)))
-//@   loop 4 invariant all(i, int, 0 <= i && i <= rangeindex ==> a.code[old(a.danglingU16[label][i])-a.base] == uint8(a.labels[label]) && a.code[int(old(a.danglingU16[label][i])-a.base)+1] == uint8(a.labels[label]>>8))
+//@   loop 4 invariant all(i, int, 0 <= i && i < loopcount(4) ==> a.code[old(a.danglingU16[label][i])-a.base] == uint8(a.labels[label]) && a.code[int(old(a.danglingU16[label][i])-a.base)+1] == uint8(a.labels[label]>>8))
 //@   loop 4 invariant all(o, int, 0 <= o && o < len(a.code) && a.code[o] != old(a.code[o]) ==> (any(l, string, any(i, int, old(has(a.danglingS8, l)) && 0 <= i && i < old(len(a.danglingS8[l])) && o == int(old(a.danglingS8[l][i])-a.base))) || any(l, string, any(i, int, old(has(a.danglingU16, l)) && 0 <= i && i < old(len(a.danglingU16[l])) && (o == int(old(a.danglingU16[l][i])-a.base) || o == int(old(a.danglingU16[l][i])-a.base)+1)))))
 //@   loop 4 modifies a.code[:]
 
@@ -1579,15 +1580,15 @@ package asm
 //@   assigns nothing
 //@   loop 1 invariant true
 //@   loop 1 modifies line
-//@   loop 2 invariant len(xb) == ite(rangeindex < 0, 0, 6*(rangeindex+1)-1)
-//@   loop 2 invariant all(j, int, 0 <= j && j <= rangeindex ==> xb[6*j] == 48)
-//@   loop 2 invariant all(j, int, 0 <= j && j <= rangeindex ==> xb[6*j+1] == 120)
-//@   loop 2 invariant all(j, int, 0 <= j && j <= rangeindex ==> xb[6*j+4] == 44)
-//@   loop 2 invariant all(j, int, 0 < j && j <= rangeindex ==> xb[6*j-1] == 32)
-//@   loop 2 invariant all(j, int, 0 <= j && j <= rangeindex ==> xb[6*j+2] == hextable[d[j]>>4&15])
-//@   loop 2 invariant all(j, int, 0 <= j && j <= rangeindex ==> xb[6*j+3] == hextable[d[j]&15])
+//@   loop 2 invariant len(xb) == ite(loopcount(2) == 0, 0, 6*loopcount(2)-1)
+//@   loop 2 invariant all(j, int, 0 <= j && j < loopcount(2) ==> xb[6*j] == 48)
+//@   loop 2 invariant all(j, int, 0 <= j && j < loopcount(2) ==> xb[6*j+1] == 120)
+//@   loop 2 invariant all(j, int, 0 <= j && j < loopcount(2) ==> xb[6*j+4] == 44)
+//@   loop 2 invariant all(j, int, 0 < j && j < loopcount(2) ==> xb[6*j-1] == 32)
+//@   loop 2 invariant all(j, int, 0 <= j && j < loopcount(2) ==> xb[6*j+2] == hextable[d[j]>>4&15])
+//@   loop 2 invariant all(j, int, 0 <= j && j < loopcount(2) ==> xb[6*j+3] == hextable[d[j]&15])
 //@   loop 2 modifies oa, xb
-//@   at invoke:Write:1 assert line == a.lines[rangeindex1+1]
+//@   at invoke:Write:1 assert line == a.lines[loopcount(1)]
 //@   at invoke:Write:1 assert len(xb) >= 1 && xb[len(xb)-1] == 10
 //@   at invoke:Write:1 assert int(line.asmLineType) == 6 || int(line.asmLineType) >= 8 ==> xb[0] == 47 && xb[1] == 47
 //@   at invoke:Write:1 assert int(line.asmLineType) == 7 ==> all(j, int, 0 <= j && j < line.byteCount ==> HEXTOK(xb, j, a.code[int(line.address-a.base)+j]))
@@ -1607,7 +1608,7 @@ package asm
 //@   assigns nothing
 //@   loop 1 invariant true
 //@   loop 1 modifies line
-//@   at invoke:Write:1 assert line == a.lines[rangeindex1+1] && len(xb) >= 1 && xb[len(xb)-1] == 10
+//@   at invoke:Write:1 assert line == a.lines[loopcount(1)] && len(xb) >= 1 && xb[len(xb)-1] == 10
 //@   at invoke:Write:1 assert int(line.asmLineType) == 6 ==> xb[5] == 36 && xb[6] == hextable[line.address>>20&15] && xb[6+1] == hextable[line.address>>16&15] && xb[6+2] == hextable[line.address>>12&15] && xb[6+3] == hextable[line.address>>8&15] && xb[6+4] == hextable[line.address>>4&15] && xb[6+5] == hextable[line.address>>0&15]
 //@   at invoke:Write:1 assert int(line.asmLineType) == 7 ==> xb[6] == 36 && xb[7] == hextable[line.address>>20&15] && xb[7+1] == hextable[line.address>>16&15] && xb[7+2] == hextable[line.address>>12&15] && xb[7+3] == hextable[line.address>>8&15] && xb[7+4] == hextable[line.address>>4&15] && xb[7+5] == hextable[line.address>>0&15] && xb[13] == 10
 //@   at invoke:Write:1 assert int(line.asmLineType) == 0 ==> len(xb) >= 15 && xb[len(xb)-3-11] == 59 && xb[len(xb)-3-9] == 36 && xb[len(xb)-3-8] == hextable[line.address>>20&15] && xb[len(xb)-3-8+1] == hextable[line.address>>16&15] && xb[len(xb)-3-8+2] == hextable[line.address>>12&15] && xb[len(xb)-3-8+3] == hextable[line.address>>8&15] && xb[len(xb)-3-8+4] == hextable[line.address>>4&15] && xb[len(xb)-3-8+5] == hextable[line.address>>0&15] && xb[len(xb)-3-2] == 32 && xb[len(xb)-3-1] == 32 && xb[len(xb)-3] == hextable[a.code[int(line.address-a.base)+0]>>4&15] && xb[len(xb)-3+1] == hextable[a.code[int(line.address-a.base)+0]&15]
